@@ -277,7 +277,7 @@ def step(db, o):
         return db, ("points", by_time(db) if o[1] else list(db))
     if k == "len":
         return db, ("nat", len(db))
-    if k == "iter":
+    if k in ("iter", "file"):
         return db, ("points", list(db))
     inm = lambda m: [p for p in db if not m or p["meas"] == m]
     if k == "get_measurements":
